@@ -32,6 +32,74 @@ def _tbl(items):
     return b'F' + struct.pack('>I', len(body)) + body
 
 
+_KBIG = None
+
+
+def kbig():
+    """Representative frames of several KiB (many small entries, big
+    strings, nesting) with their structural field maps."""
+    global _KBIG
+    if _KBIG is None:
+        from mc import refcodec, spec_table
+        qd = spec_table.BY_NAME['Queue.Declare']
+
+        def method(t):
+            return refcodec.enc_method_frame(
+                qd, (0, 'q', False, False, False, False, False, t), 1)
+        inner = {'k%03d' % i: (i * 37 if i % 3 else 'v%d' % i)
+                 for i in range(500)}
+        tables = [
+            ('big:strings', {'s%03d' % i: 'v' * 10 for i in range(450)}),
+            ('big:mixed', {'arr': list(range(-300, 500)),
+                           'b': bytearray(3000), 'tail': 's' * 3000,
+                           'z': [['q' * 2000], {'w': 'r' * 2500}]}),
+            ('big:nested', {'outer': inner, 'after': 'z' * 5000}),
+            ('big:front', {'a': 'x' * 9, 'b': bytearray(b'y' * 7),
+                           'c': ['s', 1], 'pad': 'p' * 9000}),
+        ]
+        out = []
+        for label, t in tables:
+            data, fields = method(t)
+            out.append((label, data, fields))
+        data, fields = refcodec.enc_header_frame(
+            9, {'headers': tables[1][1], 'app_id': 'a' * 200}, 1)
+        out.append(('big:header', data, fields))
+        _KBIG = out
+    return _KBIG
+
+
+def big_fields(fields, width):
+    """The first 24, last 24 and every 9th field of one width."""
+    sel = [f for f in fields if f[1] == width and not f[2].startswith(
+        'frame.')]
+    keep = set(range(24)) | set(range(len(sel) - 24, len(sel))) | \
+        set(range(0, len(sel), 9))
+    return [f for i, f in enumerate(sel) if i in keep]
+
+
+def big_rewrites(data, fields):
+    """Relation-aware rewrites of length fields of a large frame: around
+    the true value, around the bytes really remaining, +4096/+8192/+2^24,
+    and the 32-bit extremes; every value of selected 1-byte fields."""
+    n = len(data)
+    for off, width, kind in big_fields(fields, 4):
+        true = struct.unpack('>I', data[off:off + 4])[0]
+        rest = n - (off + 4)
+        vals = {0, 1, true - 1, true + 1, true + 2, rest - 2, rest - 1, rest,
+                rest + 1, true + 4096, true + 8192, true | 0x01000000,
+                true // 2, true * 2, 4095, 4096, 4097, 8192, 2**31 - 1,
+                2**31, 2**32 - 1}
+        for v in sorted(vals):
+            if 0 <= v < 2**32 and v != true:
+                yield '%s@%d=%d(true %d)' % (kind, off, v, true), \
+                    data[:off] + struct.pack('>I', v) + data[off + 4:]
+    for off, width, kind in big_fields(fields, 1)[:60]:
+        for v in range(256):
+            if v != data[off]:
+                yield '%s@%d=%02x' % (kind, off, v), \
+                    data[:off] + bytes([v]) + data[off + 1:]
+
+
 def large_values(kind, n):
     """Dense, grammar-valid field values with n elements."""
     if kind == 'strings':
@@ -86,6 +154,7 @@ def tasks(tier, seed=0):
     out += [('shapes', k) for k in range(8)]
     out += [('short',), ('nested-short',)]
     out += [('large', k) for k in range(len(LARGE_KINDS))]
+    out += [('big', k) for k in range(5)]
     return out
 
 
@@ -148,6 +217,17 @@ def inputs(task, tier, seed=0):
             yield label + ' (method argument table)', wraps['table-body'](body)
             props = b'\x20\x00' + struct.pack('>I', len(body)) + body
             yield label + ' (headers property)', wraps['header-flags'](props)
+    elif kind == 'big':
+        label, data, fields = kbig()[task[1]]
+        yield label + ' intact', data
+        for what, mutated in big_rewrites(data, fields):
+            yield label + ' ' + what, mutated
+        # cut the payload (size corrected) at a sample of points
+        payload = data[7:-1]
+        for k in sorted(set(range(0, len(payload), 97)) |
+                        set(range(max(0, len(payload) - 40), len(payload)))):
+            yield ('%s payload[:%d]' % (label, k),
+                   data[:3] + struct.pack('>I', k) + payload[:k] + b'\xce')
     elif kind == 'large':
         which = LARGE_KINDS[task[1]]
         wraps = dict(faults.envelopes())
